@@ -4,9 +4,12 @@
 //!
 //! usage: verif-harness <group> --seed S --n N --out DIR [--tier quick|thorough]
 mod libgen;
+mod luagen;
+mod scope;
 mod rng;
 mod sx;
 
+mod astdump;
 mod c06;
 mod c08;
 mod c15;
@@ -99,6 +102,7 @@ fn main() {
         "c06" => c06::run(&args, &mut out),
         "c08" => c08::run(&args, &mut out),
         "c10" => c08::run_c10(&args, &mut out),
+        "scope" => scope::run(&args, &mut out),
         "c15" => c15::run(&args, &mut out),
         "c16" => c16::run(&args, &mut out),
         other => {
